@@ -157,7 +157,11 @@ func (c *Chain) DeployFresh(ct *neotest.Contract, data any) (util.Uint160, Resul
 	}
 	mgmt := c.E.NativeHash(c.T, nativenames.Management)
 	r := c.InvokeFee(signers, 200_0000_0000, mgmt, "deploy", nb, mb, data)
-	return state.CreateContractHash(c.Payer.ScriptHash(), ct.NEF.Checksum, ct.Manifest.Name), r
+	h := state.CreateContractHash(c.Payer.ScriptHash(), ct.NEF.Checksum, ct.Manifest.Name)
+	cp := *ct
+	cp.Hash = h
+	coverTrack(ct.Manifest.Name, &cp)
+	return h, r
 }
 
 // NewScriptTxFee is NewScriptTx with a caller-chosen system fee (migrations of large storages and the raw
